@@ -382,7 +382,7 @@ eng_prog = engprog.eng_prog
 WF_NOTE = "the planner theorems assume wfb pm args = true (a boolean well-formedness certificate of the provider map) which the correspondence run evaluates by vm_compute on every accepted case; it is not proved of process_set once and for all"
 SYNTH_NOTE = "explicit loop bounds of the model (acyc_fuel, solve_fuel) are validated by the correspondence run; the theorems hold for whatever fuel completes the run"
 PROPS = {
-    "C01": {"theorems": ["C01_one_implementation", "C14_names_distinct", "C14_invented_names_fresh"], "engines": [eng_prog, eng_zerovalue],
+    "C01": {"level_text": "Machine-checked proof in Coq 8.16.1 over an executable model tied to the code by a per-run correspondence; the emission model and the name-freshness theorems are proved; that the emitted package compiles under Go's type checker is established by compiling every accepted program of the corpus (partial).", "theorems": ["C01_one_implementation", "C14_names_distinct", "C14_invented_names_fresh"], "engines": [eng_prog, eng_zerovalue],
             "assumptions": ["partial: Go's full type checker and types.TypeString are not modelled; that the package compiles is established by go build on every accepted program"]},
     "C02": {"theorems": ["C02_wiring", "C02_machine_refines_visit", "C06_accepted_is_complete"], "engines": [eng_synth, eng_prog], "assumptions": [SYNTH_NOTE, WF_NOTE, "emission of the planned calls and the run-time behaviour are tied by the emitted-lines correspondence and the runtime traces"]},
     "C03": {"theorems": ["C03_failure"], "engines": [eng_prog],
@@ -406,22 +406,22 @@ PROPS = {
                             "evaluation once at package initialisation is Go's semantics of package-level variables, not modelled"]},
     "C14": {"theorems": ["C14_names_distinct", "C14_invented_names_fresh", "C14_disambiguate_fresh", "C16_collision_order_independent"], "engines": [eng_prog],
             "assumptions": ["identifiers are ASCII in the model; non-ASCII names are outside the generated corpus"]},
-    "C15": {"theorems": ["C15_copy_identity", "C15_missing_field_is_lost"], "engines": [eng_copyprobe, eng_copydecls],
+    "C15": {"level_text": "Machine-checked proof in Coq 8.16.1 over an executable model tied to the code by a per-run correspondence; the copy is proved to be the identity for any complete table and the table is regenerated from copyAST each run; the capture-avoiding renaming is exercised, not modelled (partial).", "theorems": ["C15_copy_identity", "C15_missing_field_is_lost"], "engines": [eng_copyprobe, eng_copydecls],
             "assumptions": ["partial: the capture-avoiding renaming of rewritePkgRefs is exercised by the declaration corpus (structure + behaviour), not modelled in Coq",
                             "go/printer prints what copyAST returns; not modelled"]},
-    "C16": {"theorems": ["C16_collision_order_independent", "C10_phase_order_independent", "C07_cycles_detected"], "engines": [eng_determinism],
+    "C16": {"level_text": "Machine-checked proof in Coq 8.16.1 over an executable model tied to the code by a per-run correspondence; order-independence of every map-driven decision of the model is proved; loader behaviour across layouts is sampled by byte-comparing runs (partial).", "theorems": ["C16_collision_order_independent", "C10_phase_order_independent", "C07_cycles_detected"], "engines": [eng_determinism],
             "assumptions": ["partial: loader behaviour across layouts is the go tool's and go/packages' runtime behaviour; the model cannot exhibit it, the runs sample it",
                             "sorting of the import blocks (sort.Strings) is compared between runs, not modelled"]},
-    "C17": {"theorems": ["C17_gen_exit", "C17_gen_footprint", "C17_failed_package_untouched", "C17_failure_does_not_block_others", "C17_diff_readonly", "C17_diff_exit"],
+    "C17": {"level_text": "Machine-checked proof in Coq 8.16.1 over an executable model tied to the code by a per-run correspondence; the command logic is proved over an abstract file system; the OS write is modelled as whole-file replace and tied by tree hashes (partial).", "theorems": ["C17_gen_exit", "C17_gen_footprint", "C17_failed_package_untouched", "C17_failure_does_not_block_others", "C17_diff_readonly", "C17_diff_exit"],
             "engines": [eng_cli], "assumptions": ["partial: OS write semantics are modelled as whole-file replace, tied by before/after tree hashes", "per-package Generate results are inputs of the command model"]},
-    "C18": {"theorems": ["C18_history_independent", "C18_failed_gen_untouched", "C17_diff_readonly"], "engines": [eng_cli],
+    "C18": {"level_text": "Machine-checked proof in Coq 8.16.1 over an executable model tied to the code by a per-run correspondence; the history machine is proved under the hypothesis that analysis depends on current sources only, which the histories test against the binary (partial).", "theorems": ["C18_history_independent", "C18_failed_gen_untouched", "C17_diff_readonly"], "engines": [eng_cli],
             "assumptions": ["partial: that analysis is a function of the current sources (files constrained !wireinject are invisible under -tags=wireinject) is the section hypothesis content_of; it is exactly what the histories test against the binary"]},
     "C19": {"theorems": ["C19_check_iff_gen", "C05_never_picks"], "engines": [eng_cli, eng_prog],
             "assumptions": ["the `show` grouping is checked on the binary's output against the property's wording, its stack machine (gather) is not modelled in Coq"]},
-    "C20": {"theorems": ["C09_results", "C12_check_field_sound", "C07_terminates"], "engines": [eng_forms, eng_zerovalue, eng_funcoutput],
+    "C20": {"level_text": "Machine-checked proof in Coq 8.16.1 over an executable model tied to the code by a per-run correspondence; the modelled rules are total functions and zeroValue/funcOutput tables are regenerated and re-proved each run; crash-freedom of the front end's pattern recognition rests on 94 enumerated spellings through the binary (partial).", "theorems": ["C09_results", "C12_check_field_sound", "C07_terminates"], "engines": [eng_forms, eng_zerovalue, eng_funcoutput],
             "assumptions": ["partial: the front end's pattern recognition of marker-call arguments is not modelled in Coq; the crash-freedom claim for it rests on the enumerated spellings through the binary",
                             "proved parts: the modelled rules (funcOutput, field selection, cycle check) are total functions; zeroValue is total over the regenerated kind table"]},
 }
 
-HOOK_COMMITS = ["fc0854c"]
+HOOK_COMMITS = ["fc0854c", "b8ca607"]
 NOT_YET = {}
